@@ -18,6 +18,14 @@ type model struct {
 	removed []int       // recently removed numbers
 	steps   int
 	trace   []string
+	noFull  int // > 0: an iteration was stopped early; no complete iteration for that many operations
+}
+
+func (m *model) fullUnlessInterrupted() *fail {
+	if m.noFull > 0 {
+		return m.lookups()
+	}
+	return m.full()
 }
 
 func newModel() *model {
@@ -105,6 +113,15 @@ func (m *model) checkFd(fd int) *fail {
 }
 
 func (m *model) full() *fail {
+	if f := m.lookups(); f != nil {
+		return f
+	}
+	return m.iterateAll()
+}
+
+// lookups checks the count and every live and recently removed number without iterating (an iteration that runs to
+// its end may repair what an interrupted one left behind).
+func (m *model) lookups() *fail {
 	if int(m.reg.Count()) != len(m.live) {
 		return &fail{"count", fmt.Sprintf("loadCount()=%d, %d connections are live", m.reg.Count(), len(m.live))}
 	}
@@ -118,6 +135,10 @@ func (m *model) full() *fail {
 			return f
 		}
 	}
+	return nil
+}
+
+func (m *model) iterateAll() *fail {
 	// iteration visits every live connection exactly once
 	seen := map[int]int{}
 	m.reg.Iterate(func(h any, fd int) bool {
@@ -238,12 +259,12 @@ func runSeq(res *vlib.Result, seqSeed uint64, keys map[string]struct{}) int {
 			}
 		case op < 10: // iterate
 			opn = "iterate"
-			f = m.full()
+			f = m.fullUnlessInterrupted()
 		case op < 11: // iterate and remove every visited connection (shutdown pattern), then reuse
 			opn = "iterate-remove-all"
-			if r.Chance(2, 3) {
+			if r.Chance(2, 3) || m.noFull > 0 {
 				opn = "check"
-				f = m.full()
+				f = m.fullUnlessInterrupted()
 				break
 			}
 			visited := map[int]int{}
@@ -279,6 +300,32 @@ func runSeq(res *vlib.Result, seqSeed uint64, keys map[string]struct{}) int {
 			if f == nil {
 				f = m.full()
 			}
+		case op < 12 && r.Chance(1, 2): // an iteration the callback stops early; the registry must stay fully usable
+			opn = "iterate-stop-early"
+			stopAfter := 1
+			if len(m.live) > 1 {
+				stopAfter = r.Range(1, len(m.live))
+			}
+			visited := map[int]int{}
+			n := 0
+			m.reg.Iterate(func(h any, fd int) bool {
+				visited[fd]++
+				n++
+				if m.live[fd] != h {
+					visited[-fd-1]++
+				}
+				return n < stopAfter
+			})
+			m.trace = append(m.trace, fmt.Sprintf("iterate-stop-after(%d of %d)", stopAfter, len(m.live)))
+			for fd, k := range visited {
+				if fd < 0 || k != 1 {
+					f = &fail{"iterate", fmt.Sprintf("stopped iteration visited fd=%d %d times / a stale handle", fd, k)}
+				}
+			}
+			if f == nil && len(m.live) > 0 && n != stopAfter {
+				f = &fail{"iterate", fmt.Sprintf("iteration asked to stop after %d connections visited %d (of %d live)", stopAfter, n, len(m.live))}
+			}
+			m.noFull = r.Pick(3, 6, 12) // the next operations run without a healing full iteration
 		default: // count
 			opn = "count"
 			if int(m.reg.Count()) != len(m.live) {
@@ -286,7 +333,14 @@ func runSeq(res *vlib.Result, seqSeed uint64, keys map[string]struct{}) int {
 			}
 		}
 		if f == nil && (len(m.live) <= 64 || i%97 == 0) {
-			f = m.full()
+			if m.noFull > 0 && opn != "iterate-stop-early" {
+				m.noFull--
+			}
+			if m.noFull > 0 {
+				f = m.lookups()
+			} else {
+				f = m.full()
+			}
 		}
 		if f != nil {
 			report(opn, pos, f)
